@@ -21,6 +21,7 @@ from .native import NativeVM, ReplayDiverged, AssumeFailed, WatchdogTimeout, wit
 
 VERIF = boot.VERIF
 MAX_REPLAY_RUN = 1 << 22      # opaque runs longer than this are shrunk (or the witness replay is skipped)
+TRACE = bool(os.environ.get('VERIF_TRACE'))
 WITNESS_CAP = 2000                # witness replays per job (all paths if fewer)
 
 
@@ -39,7 +40,8 @@ def show_inputs(inputs, named):
         if kind == 'run':
             out.append(f'{name}=<run of {v[1]} bytes>')
         elif kind == 'bytes':
-            out.append(f'{name}={bytes(v)!r}')
+            b = bytes(v)
+            out.append(f'{name}={b!r}' if len(b) <= 12 else f'{name}=hex:{b.hex()}')
         elif kind == 'str':
             out.append(f'{name}={"".join(map(chr, v))!r}')
         else:
@@ -330,15 +332,63 @@ def run_property(pid, tier, seed, only=None, canaries=None, write_evidence=True,
     return report(pid, mod, tier, seed, results, canary_results, t0, write_evidence, verbose)
 
 
+def _child(task, path):
+    import pickle
+    res = run_job(task)
+    with open(path + '.tmp', 'wb') as f:
+        pickle.dump(res, f)
+    os.rename(path + '.tmp', path)
+
+
 def run_pool(tasks):
+    """One forked process per job, at most VERIF_JOBS at a time.  A worker that dies (segfault, OOM kill) is reported
+    as a crashed job (harness error) instead of hanging the run."""
+    import pickle
+    import tempfile
     if not tasks:
         return []
-    n = min(int(os.environ.get('VERIF_JOBS', '16')), len(tasks))
-    if n <= 1:
-        return [run_job(t) for t in tasks]
+    n = max(1, min(int(os.environ.get('VERIF_JOBS', '16')), len(tasks)))
     ctx = multiprocessing.get_context('fork')
-    with ctx.Pool(processes=n, maxtasksperchild=1) as pool:
-        return list(pool.imap_unordered(run_job, tasks, chunksize=1))
+    scratch = tempfile.mkdtemp(prefix='vcheck-')
+    results = []
+    pending = list(enumerate(tasks))
+    running = {}
+    try:
+        while pending or running:
+            while pending and len(running) < n:
+                i, task = pending.pop(0)
+                path = os.path.join(scratch, f'{i}.pkl')
+                p = ctx.Process(target=_child, args=(task, path), daemon=True)
+                p.start()
+                running[i] = (p, path, task, time.time())
+                if TRACE:
+                    print(f'[start] {task[1]["name"]} pid={p.pid}', file=sys.stderr, flush=True)
+            time.sleep(0.05)
+            for i in list(running):
+                p, path, task, t0 = running[i]
+                if p.is_alive():
+                    continue
+                p.join()
+                del running[i]
+                if TRACE:
+                    print(f'[done] {task[1]["name"]} {time.time() - t0:.1f}s', file=sys.stderr, flush=True)
+                if os.path.exists(path):
+                    with open(path, 'rb') as f:
+                        results.append(pickle.load(f))
+                    os.remove(path)
+                else:
+                    job = task[1]
+                    results.append(dict(job=job['name'], paths=0, decisions=0, queries=0, solver_s=0.0, validated=0,
+                                        replay_skipped=0, unproven=0, violations=[], inconclusive=[], samples=[],
+                                        harness_errors=[f'worker process died with exit code {p.exitcode}'],
+                                        outcomes={}, exhausted=False, functions={}, wall=time.time() - t0,
+                                        bounds=job.get('bounds', {})))
+    finally:
+        for p, path, task, t0 in running.values():
+            p.terminate()
+        import shutil
+        shutil.rmtree(scratch, ignore_errors=True)
+    return results
 
 
 def run_canaries(pid, mod, seed):
